@@ -33,7 +33,7 @@ def norm(x):
 
 def norm_param(p):
     return ("p", p.name, norm(p.value), norm(p.min), norm(p.max),
-            bool(p.vary), p.expr)
+            bool(p.vary), p.expr, norm(getattr(p, "brute_step", None)))
 
 
 def digest(x):
